@@ -153,7 +153,7 @@ func (p *Proxy) forwardRpc(source string, rpc *goatorepo.Rpc) {
 
 		// If there is a proxy route we're following, use that as the destination
 		// address in preference to the one marked in the header.
-		if rpc.Header.ProxyNext != nil {
+		if len(rpc.Header.ProxyNext) > 0 {
 			destination = rpc.Header.ProxyNext[len(rpc.Header.ProxyNext)-1]
 			rpc.Header.ProxyNext = rpc.Header.ProxyNext[0 : len(rpc.Header.ProxyNext)-1]
 		}
